@@ -349,6 +349,43 @@ fn run_values(ctx: &mut Ctx, tag: u64, n_hist: u64, n_other: u64, check: fn(&str
     }
     ctx.rng_state = None;
     mon::idle();
+    // (c) values that only maximize / minimize can produce: every CLDR likely-subtags key (and its
+    // value) pushed through LanguageIdentifier::maximize and ::minimize, as an id and as a tlang -
+    // the subtags of those results come out of the compiled tables through the unchecked constructors
+    #[cfg(feature = "likely")]
+    if let Ok(lk) = Likely::load() {
+        for (i, (k, v)) in lk.entries.iter().enumerate() {
+            if i % ctx.nshards != ctx.shard {
+                continue;
+            }
+            for src in [k, v] {
+                let Ok(li) = src.parse::<LanguageIdentifier>() else { continue };
+                let mut mx = li.clone();
+                mx.maximize();
+                let mut mn = li.clone();
+                mn.minimize();
+                for (route, x) in [("maximize(cldr key)", mx), ("minimize(cldr key)", mn)] {
+                    mon::begin_case(src.as_bytes());
+                    ctx.evals += 1;
+                    ctx.count("value:likely-subtags-result");
+                    let mut l = Locale::from(x.clone());
+                    if i % 2 == 1 {
+                        l.extensions.transform.set_tlang(x.clone()).ok();
+                        let _ = l.extensions.unicode.set_keyword("ca", &["buddhist"]);
+                    }
+                    ctx.sig(SigH::new(tag).b(l.to_string().as_bytes()).fin());
+                    for f in check(route, &l) {
+                        ctx.viol_total += 1;
+                        ctx.count_dyn(&format!("violation:{}", f.clause));
+                        if ctx.may_minimise(&f.clause) {
+                            ctx.add_violation(&f.clause, json!({"route": route, "built_from": src}), json!(null), f.detail);
+                        }
+                    }
+                }
+            }
+        }
+        mon::idle();
+    }
 }
 
 fn c04_value(what: &str, l: &Locale) -> Vec<Fail> {
